@@ -16,6 +16,10 @@ def structEffs : RState → List Nat
   | .either e _ _ _ _ inner => e :: structEffs inner
   | .show e _ _ _ _ _ inner => e :: structEffs inner
   | .forK e _ _ _ _ => [e]
+  | .scope _ _ _ inner => structEffs inner
+  | .rows e _ _ _ _ _ => [e]
+  | .rowCons _ _ _ => []
+  | .rowNil => []
 
 /-- the rows of a keyed region as DOM nodes: `<li>` (one mutation: its text child), its text, the marker -/
 def forNodes (ks : Keyed.KState) (texts : List (Nat × Nat)) : List N :=
@@ -34,6 +38,11 @@ def nodesOf : RState → List (N × List Nat)
   | .either e _ _ _ _ inner => (nodesOf inner).map fun p => (p.1, e :: p.2)
   | .show e _ _ _ _ _ inner => (nodesOf inner).map fun p => (p.1, e :: p.2)
   | .forK e _ _ ks texts => (forNodes ks texts).map fun n => (n, [e])
+  | .scope _ _ _ inner => nodesOf inner
+  -- lists with rows of their own are outside the class of `C04_untouched_nodes`
+  | .rows _ _ _ _ _ _ => []
+  | .rowCons _ _ _ => []
+  | .rowNil => []
 
 /-- the mount root and everything below it -/
 def St.nodes (st : St) : List (N × List Nat) :=
@@ -107,6 +116,19 @@ theorem rerunIn_struct (e : Nat) (w : Int) : ∀ (t : RState) (st : St), e ∉ s
     have hne : ¬ e' = e := fun hh => h hh.symm
     simp only [rerunIn, hne, if_false, structEffs]
     exact ⟨trivial, trivial⟩
+  | scope m sid isSig inner ih =>
+    intro st h
+    simp only [structEffs] at h
+    simp only [rerunIn, structEffs]
+    exact ih st h
+  | rows e' sel lists row ks items _ =>
+    intro st h
+    simp only [structEffs, List.mem_singleton] at h
+    have hne : ¬ e' = e := fun hh => h hh.symm
+    simp only [rerunIn, hne, if_false, structEffs]
+    exact ⟨trivial, trivial⟩
+  | rowCons k r rest _ _ => intro st _; simp only [rerunIn, structEffs]; exact ⟨trivial, trivial⟩
+  | rowNil => intro st _; exact ⟨rfl, rfl⟩
 
 /-- a re-run of `e` keeps every node that `e` does not govern: same identity, same mutation counter -/
 theorem rerunIn_nodes (e : Nat) (w : Int) : ∀ (t : RState) (st : St) (n : N) (g : List Nat),
@@ -174,6 +196,14 @@ theorem rerunIn_nodes (e : Nat) (w : Int) : ∀ (t : RState) (st : St) (n : N) (
     have hne : ¬ e' = e := fun hh => hg (by rw [← hgg, hh]; simp)
     simp only [rerunIn, hne, if_false, nodesOf, List.mem_map]
     exact ⟨n0, hm, heq⟩
+  | scope m sid isSig inner ih =>
+    intro st n' g h hg
+    simp only [nodesOf] at h
+    simp only [rerunIn, nodesOf]
+    exact ih st n' g h hg
+  | rows e' sel lists row ks items _ => intro st n' g h _; simp [nodesOf] at h
+  | rowCons k r rest _ _ => intro st n' g h _; simp [nodesOf] at h
+  | rowNil => intro st n' g h _; simp [nodesOf] at h
 
 
 theorem structEffs_sub : ∀ (t : RState), ∀ e ∈ structEffs t, e ∈ effsOf t := by
@@ -205,6 +235,13 @@ theorem structEffs_sub : ∀ (t : RState), ∀ e ∈ structEffs t, e ∈ effsOf 
     · exact Or.inl h
     · exact Or.inr (ih e h)
   | forK e' sel lists ks texts => intro e h; simpa [structEffs, effsOf] using h
+  | scope m sid isSig inner ih => intro e h; simp only [structEffs] at h; simp only [effsOf]; exact ih e h
+  | rows e' sel lists row ks items _ =>
+    intro e h
+    simp only [structEffs, List.mem_singleton] at h
+    simp [effsOf, h]
+  | rowCons k r rest _ _ => intro e h; simp [structEffs] at h
+  | rowNil => intro e h; simp [structEffs] at h
 
 /-- the effects governing a node are effects of the tree -/
 theorem nodesOf_sub : ∀ (t : RState) (n : N) (g : List Nat), (n, g) ∈ nodesOf t → ∀ e ∈ g, e ∈ effsOf t := by
@@ -267,5 +304,13 @@ theorem nodesOf_sub : ∀ (t : RState) (n : N) (g : List Nat), (n, g) ∈ nodesO
     obtain ⟨n0, _, heq⟩ := h
     rw [← (Prod.mk.inj heq).2] at he
     simpa [effsOf] using he
+  | scope m sid isSig inner ih =>
+    intro n' g h e he
+    simp only [nodesOf] at h
+    simp only [effsOf]
+    exact ih n' g h e he
+  | rows e' sel lists row ks items _ => intro n' g h; simp [nodesOf] at h
+  | rowCons k r rest _ _ => intro n' g h; simp [nodesOf] at h
+  | rowNil => intro n' g h; simp [nodesOf] at h
 
 end Leptos.RView
